@@ -423,7 +423,10 @@ def sorted_spec(d):
     ks = list(d.keys())
     order = list(getattr(d, "canonical_order", None) or ())
     head = [k for k in order if k in ks]
-    keys = head + sorted(k for k in ks if k not in head)
+    try:
+        keys = head + sorted(k for k in ks if k not in head)
+    except TypeError:                       # a broken mapping may hold keys of mixed types
+        return ["err", "keys of mixed types: " + repr(ks)[:80]]
     items = dict.items(d)            # the stored pairs themselves (a broken mapping may not find its own keys)
     return [keys, [[k, v] for k in keys for kk, v in items if kk == k]]
 
